@@ -20,6 +20,7 @@ import copy
 import random
 import shutil
 import tempfile
+import time
 import warnings
 
 from bounded.common import Run
@@ -37,7 +38,9 @@ R = Run('every public repository mutator (compile_mof_string/file, compile_schem
         '(~150 reasons) x 5 repository states (2-ns class tree, 3-ns cross-namespace associations, orphaned '
         'shadow instances, minimal/empty namespaces, interop+namespace provider) x target namespaces; batches: '
         'invalid element at every position k=0..4 of 2 valid chains, with/without a valid suffix '
-        '(quick: all single operations + add_cimobjects batches exhaustive, MOF batches strided/sampled)')
+        '(all single operations and add_cimobjects batches exhaustive (quick: valid-suffix variants only for one '
+        'state/namespace); compile_mof_string batches exhaustive in '
+        'thorough, fixed core + seeded sample in quick; compile_mof_file x 3 file layouts: core + seeded sample)')
 
 DEBUG = bool(os.environ.get('C11_DEBUG'))
 QUICK = R.tier != 'thorough'
@@ -358,7 +361,9 @@ def run_case(sname, op, reason, variant, call, replay, effects=None, known=None,
             vid = known
     if vid is None:
         vid = '%s-raised-but-repository-changed:%s' % (op, reason)
-    R.violation(vid, state=sname, operation=op, reason=reason, variant=short(variant), replay=short(replay, 1500),
+    if callable(replay):
+        replay = replay()
+    R.violation(vid, state=sname, operation=op, reason=reason, variant=short(variant), replay=short(replay, 2500),
                 raised=short(('%s: %s' % (type(exc).__name__, exc)).replace(TMP['dir'] or '\0', '<tmp>'), 300),
                 added=sorted(short(k, 250) for k in added), removed=sorted(short(k, 250) for k in removed),
                 changed=sorted(short(k, 250) for k in changed))
@@ -522,7 +527,7 @@ def gen_add_cimobjects():
                         continue
                     for with_suffix in (False, True):
                         sid = suffix_for(pids, chain) if with_suffix else None
-                        if with_suffix and sid is None:
+                        if with_suffix and (sid is None or (QUICK and not (sname == 'T2' and ns == NS0))):
                             continue
                         for explicit_ns in ((True, False) if ns == NS0 else (True,)):
                             ids = pids + ['<%s>' % reason] + ([sid] if sid else [])
@@ -533,10 +538,16 @@ def gen_add_cimobjects():
                                     objs.append(VALID[sid].obj(ns))
                                 conn.add_cimobjects(objs, namespace=ns if explicit_ns else None)
                             effects = [VALID[i].effect(ns) for i in pids]
+
+                            def replay(ns=ns, pids=pids, reason=reason, sid=sid, explicit_ns=explicit_ns, ids=ids,
+                                       sname=sname):
+                                objs = [VALID[i].obj(ns) for i in pids] + [BAD_OBJ[reason](ns, pids)]
+                                if sid:
+                                    objs.append(VALID[sid].obj(ns))
+                                return 'add_cimobjects(%r, namespace=%r) on state %s with objects [%s]' % (
+                                    ids, ns if explicit_ns else None, sname, ', '.join(short(o, 400) for o in objs))
                             yield (sname, 'add_cimobjects', reason, (ns, cname, k, bool(sid), explicit_ns), call,
-                                   'add_cimobjects(%r, namespace=%r) on state %s; <reason> = invalid element'
-                                   % (ids, ns if explicit_ns else None, sname),
-                                   effects, 'known:add_cimobjects-batch-prefix-kept')
+                                   replay, effects, 'known:add_cimobjects-batch-prefix-kept')
         # single (non-list) invalid object and missing namespace
         ns = NS0
         for reason in reasons:
@@ -545,7 +556,7 @@ def gen_add_cimobjects():
                 continue
             yield (sname, 'add_cimobjects', reason, ('single-object',),
                    lambda conn, reason=reason, ns=ns: conn.add_cimobjects(BAD_OBJ[reason](ns, [])),
-                   'add_cimobjects(<%s>) (no list)' % reason, None, None)
+                   'add_cimobjects(%s) (single object, no list)' % short(bad, 500), None, None)
         for k in (1, 2):
             ch = chains[0][1]
             yield (sname, 'add_cimobjects', 'namespace-missing', (k,),
@@ -586,12 +597,13 @@ def gen_mof_batches():
                             yield sname, ns, cname, k, pids, reason, sid, explicit_ns
 
 
-def select_quick(items, keep, n_sample):
-    """Deterministic core (predicate keep) + seeded sample of the rest."""
+def select_quick(items, keep, n_quick, n_thorough=None):
+    """Deterministic core (predicate keep) + seeded sample of the rest (thorough: everything if no bound given)."""
     core = [it for it in items if keep(it)]
     rest = [it for it in items if not keep(it)]
-    if QUICK:
-        rest = RND.sample(rest, min(n_sample, len(rest)))
+    n = n_quick if QUICK else n_thorough
+    if n is not None:
+        rest = RND.sample(rest, min(n, len(rest)))
     return core + rest
 
 
@@ -607,7 +619,7 @@ def quick_core_mof(it):
 
 
 def gen_compile_mof_string():
-    items = select_quick(list(gen_mof_batches()), quick_core_mof, 40)
+    items = select_quick(list(gen_mof_batches()), quick_core_mof, 30)
     for sname, ns, cname, k, pids, reason, sid, explicit_ns in items:
         text = mof_batch(ns, pids, reason, sid)
         effects = [VALID[i].effect(ns) for i in pids]
@@ -661,7 +673,7 @@ def gen_compile_mof_file():
                 and reason in ('class-superclass-missing', 'syntax-error-missing-semicolon',
                                'instance-unknown-property', 'pragma-include-missing-file',
                                'class-exists-modify-rejected-instances', 'instance-alias-undefined'))
-    items = select_quick(list(gen_mof_batches()), core, 12)
+    items = select_quick(list(gen_mof_batches()), core, 10, 350)
     n = 0
     for sname, ns, cname, k, pids, reason, sid, explicit_ns in items:
         n += 1
@@ -1185,8 +1197,11 @@ def main():
         gens = [gen_class_ops(), gen_instance_ops(), gen_namespace_ops(), gen_add_cimobjects(),
                 gen_compile_mof_string(), gen_compile_mof_file(), gen_compile_schema_classes()]
         for g in gens:
+            t0, n0 = time.time(), R.cases
             for case in g:
                 run_case(*case)
+            if DEBUG:
+                sys.stderr.write('TIME %s: %d cases %.1f s\n' % (g.__name__, R.cases - n0, time.time() - t0))
     finally:
         if TMP['dir']:
             shutil.rmtree(TMP['dir'], ignore_errors=True)
